@@ -101,13 +101,17 @@ package encoding
 // The public entry points accept only what validateRaw accepted, for the same
 // message object and the same bytes (C03 is decided by validateRaw's contract).
 //@ func (u DefaultUnmarshaller) Unmarshal(msg messages.Builder, d []byte) (err error)
+//@   safety[C11]
 //@   requires msg != nil && tagBL(msg) != tagCS(msg)
+//@   requires u.Validator != nil
 //@   call validateRaw#1:
 //@     witness rawErr = ret
 //@     assert[C03] @sameinput arg0 == msg && string(arg1) == string(d)
+//@     assert[C03] @pristine mBeginKV(msg) == old(mBeginKV(msg)) && mBeginKV(msg).Value == old(mBeginKV(msg).Value) && nullV(mBeginKV(msg).Value) == old(nullV(mBeginKV(msg).Value)) && string(wireV(mBeginKV(msg).Value)) == old(string(wireV(mBeginKV(msg).Value)))
 //@   ensures[C03] @viaValidateRaw imp(err == nil, rawErr == nil)
 
 //@ func Unmarshal(msg messages.Builder, d []byte) (err error)
+//@   safety[C11]
 //@   requires msg != nil && tagBL(msg) != tagCS(msg)
 //@   call Unmarshal#1:
 //@     witness innerErr = ret
